@@ -12,7 +12,7 @@ if rc != 0:
 bad = 0
 for f in sorted(glob.glob(os.path.join(C.SPEC, "*.tla"))):
     # modules that carry TLAPS proofs import the proof system's TLAPS module
-    rc, out = C.sh(["java", "-DTLA-Library=/opt/veriftools/tlapm/lib/tlapm/stdlib", "-cp", C.TLC_JAR, "tla2sany.SANY",
+    rc, out = C.sh(["java", "-Djava.io.tmpdir=" + C.scratch(), "-DTLA-Library=/opt/veriftools/tlapm/lib/tlapm/stdlib", "-cp", C.TLC_JAR, "tla2sany.SANY",
                     os.path.basename(f)], cwd=C.SPEC, timeout=300)
     if rc != 0 or "Semantic errors" in out or "*** Errors" in out or "Fatal errors" in out:
         print("SANY failed on", f); print(out[-1500:]); bad += 1
